@@ -710,6 +710,7 @@ impl<'de, R: Read<'de>> Parser<R> {
             Token::VecOpen(close) => {
                 self.remaining_depth -= 1;
                 if self.remaining_depth == 0 {
+                    self.remaining_depth += 1;
                     return Err(self.peek_error(ErrorCode::RecursionLimitExceeded));
                 }
 
@@ -725,6 +726,7 @@ impl<'de, R: Read<'de>> Parser<R> {
             Token::ListOpen(close) => {
                 self.remaining_depth -= 1;
                 if self.remaining_depth == 0 {
+                    self.remaining_depth += 1;
                     return Err(self.peek_error(ErrorCode::RecursionLimitExceeded));
                 }
 
@@ -795,6 +797,7 @@ impl<'de, R: Read<'de>> Parser<R> {
             Token::VecOpen(close) => {
                 self.remaining_depth -= 1;
                 if self.remaining_depth == 0 {
+                    self.remaining_depth += 1;
                     return Err(self.peek_error(ErrorCode::RecursionLimitExceeded));
                 }
 
@@ -812,6 +815,7 @@ impl<'de, R: Read<'de>> Parser<R> {
             Token::ListOpen(close) => {
                 self.remaining_depth -= 1;
                 if self.remaining_depth == 0 {
+                    self.remaining_depth += 1;
                     return Err(self.peek_error(ErrorCode::RecursionLimitExceeded));
                 }
 
